@@ -1,5 +1,8 @@
 use mla_verif_harness as h;
 
+#[global_allocator]
+static GLOBAL: h::alloc::Counting = h::alloc::Counting;
+
 fn main() {
     let args: Vec<String> = std::env::args().collect();
     if args.len() < 2 {
@@ -20,6 +23,7 @@ fn main() {
         "transfer" => h::eng_transfer::main(rest),
         "tamper" => h::eng_tamper::main(rest),
         "format" => h::eng_format::main(rest),
+        "fault" => h::eng_fault::main(rest),
         e => {
             eprintln!("unknown engine {e}");
             std::process::exit(2);
